@@ -1,6 +1,7 @@
 """C13, C14, C16, C17: relational properties.  The relation is a Lean definition (Spec/Rel.lean,
 Spec/Eval.lean `relEval`) evaluated by the driver on the implementation's outcomes; every request
 is also run through the model (correspondence)."""
+import re
 import collections, random, json
 import canon, gen, runner
 from propchecks import common
@@ -114,7 +115,16 @@ def run(ctx):
                     if gap.lstrip(' \t').startswith('\n'):
                         edits.append((prev_end, ' # c'))
                 prev_end = max(prev_end or 0, b); prev_body = body
-            if len(edits) > 12: edits = rng.sample(edits, 12)
+            # layout at the end of a line that holds a here-document operator, also inside substitutions (whose inner gaps the leaf spans do not show)
+            import re as _re
+            inner = []
+            for m in _re.finditer(r'<<-?[ \t]?[A-Za-z0-9_]+(?=\n)', s):
+                inside = any(a <= m.start() and m.end() <= b for (a, b, body) in spans if not body and ('$(' in s[a:b] or '`' in s[a:b] or '<(' in s[a:b] or '>(' in s[a:b]))
+                for text in (' ', ' # c', '\t'):
+                    (inner if inside else edits).append((m.end(), text))
+            if len(edits) > 14: edits = rng.sample(edits, 14)
+            for (p, text) in inner[:6]:
+                cases.append(('C14inner', [p, len(text)], s, [('parse', {}, s), ('parse', {}, s[:p] + text + s[p:])]))
             for (p, text) in edits:
                 # never split a backslash-newline pair (a span that ends in a backslash is defect D31/D32: the position after it is no gap)
                 if 0 < p <= len(s) and s[p - 1] == '\\': continue
@@ -143,6 +153,8 @@ def run(ctx):
             if item[3][0].startswith('OK [{') or item[3][0].startswith('EXN'): nontrivial.add((case[0], case[2]))
             for sig in sigs:
                 sig = '%s:%s' % (case[0], sig)
+                if case[0] == 'C14' and isinstance(case[1], list) and case[1] and re.search(r'<<-?[ \t]?[A-Za-z0-9_]+$', case[2][:case[1][0]]):
+                    sig += '+after-heredoc-delimiter'
                 sig_count[sig] += 1
                 fid = common.match_finding(findings, sig, case[2])
                 if fid: finding_hits.setdefault(fid, case[2][:80])
